@@ -148,7 +148,7 @@ func (c *Ctx) lockSummary(fn *ssa.Function) *lockSummary {
 	for k, ref := range cands {
 		heldAll, any := true, false
 		for _, b := range fn.Blocks {
-			if r, ok := b.Instrs[len(b.Instrs)-1].(*ssa.Return); ok {
+			if r, ok := asReturn(b); ok {
 				any = true
 				if _, h := must.at(r)[k]; !h {
 					heldAll = false
@@ -163,7 +163,7 @@ func (c *Ctx) lockSummary(fn *ssa.Function) *lockSummary {
 		may := c.lockFlow(fn, lockset{k: ref}, false)
 		releasedAll, any := true, false
 		for _, b := range fn.Blocks {
-			if r, ok := b.Instrs[len(b.Instrs)-1].(*ssa.Return); ok {
+			if r, ok := asReturn(b); ok {
 				any = true
 				if _, h := may.at(r)[k]; h {
 					releasedAll = false
